@@ -9,12 +9,26 @@
     sub-slices taken, the comparisons made, the alignment and constructor calls.  In particular
     `NewFirmwareVolume` takes three `[:h]` slices — the third one is the clip to `fv.Length` of
     fixes/C04-file-clipped-to-volume.diff; without it this file does not build.
+  * follow-up wp-c04b — **ME partition table**: signature, the two constants and the packed layout of
+    `MEPartitionEntry` (the offsets `Me.EntryAt` uses are computed from it); shapes of `NewMEFPT`,
+    `parsePartitions`, `NewMERegion`, `FindMEDescriptor`; **NVAR**: `NewFile` calls `NewNVarStore` once,
+    the walk calls `newNVar` once per round, `newNVar` looks for a nested store once (the NVAR model
+    itself is C10's, tied by Nvram/Tie*.lean — audited with this check as well);
+  * follow-up wp-c04b — **writes to byte slices** (Gen/UefiWrites.lean): the inventory of every `copy`,
+    indexed assignment, `append` onto an existing slice, `PutUintNN`, `Erase` and read-into inside the 71
+    functions reachable from `uefi.Parse`: twelve `copy`s, each into a buffer the same function allocated
+    just before (`fresh`), four of them in the else-branch of `if ReadOnly`.  In read-only mode the node
+    buffers alias the caller's input; a write that is not `fresh` (an in-place patch of `buf`, an
+    `append` onto a node buffer, an `Erase`) would modify the caller's buffer or make the tree depend on
+    the mode — it changes a regenerated list below and the named theorem stops building, whether or not a
+    generated input reaches it.
 -/
 import FianoModel.Uefi.Spec
 import FianoModel.Uefi.Faithful
 import FianoModel.Gen.Uefi
 import FianoModel.Gen.UefiCodec
 import FianoModel.Gen.UefiParse
+import FianoModel.Gen.UefiWrites
 
 namespace Fiano.Uefi.TieC04
 open Fiano Fiano.Uefi
@@ -150,5 +164,81 @@ theorem tie_shape_descriptor :
 theorem tie_shape_FindFirmwareVolumeOffset :
     Gen.UefiParse.sliceshapes_FindFirmwareVolumeOffset = ["[l:h]"] ∧
     Gen.UefiParse.cmpops_FindFirmwareVolumeOffset = ["<", "< 32"] := by decide
+
+/-! ### follow-up wp-c04b: ME partition table -/
+
+theorem tie_me_consts :
+    Me.descMin = Gen.UefiParse.MEPartitionDescriptorMinLength ∧ Me.entryLen = Gen.UefiParse.MEPartitionTableEntryLength ∧
+    Me.fptSig = bytesOf Gen.UefiParse.MEFPTSignature ∧ Gen.UefiParse.size_MEPartitionEntry = Me.entryLen := by decide
+
+/-- the literals of `Me.newFPT` (`o + 28`, `32 * cnt`) are the two constants -/
+theorem tie_me_literals : Me.descMin = 28 ∧ Me.entryLen = 32 := by decide
+
+/-- the field offsets `Me.EntryAt` / `Me.decodeEntry` use are the packed layout of `MEPartitionEntry` -/
+theorem tie_me_entry_offsets :
+    ["Name", "Owner", "Offset", "Length", "Reserved", "Flags"].map (fieldAt Gen.UefiParse.layout_MEPartitionEntry) =
+      [some (0, 4), some (4, 4), some (8, 4), some (12, 4), some (16, 12), some (28, 4)] := by decide
+
+/-- `NewMEFPT`: reads the count from `buf[o:]`, copies `buf[:l]`, two length checks; `parsePartitions`
+    reads from `fp.buf[PartitionMapStart:]`; `NewMERegion` compares ends with `>`; the signature search is
+    `bytes.Index … >= 0` -/
+theorem tie_shape_me :
+    Gen.UefiParse.sliceshapes_NewMEFPT = ["[:h]", "[l:]"] ∧ Gen.UefiParse.cmpops_NewMEFPT = ["<", "<"] ∧
+    Gen.UefiParse.sliceshapes_MEFPT_parsePartitions = ["[l:]"] ∧ Gen.UefiParse.cmpops_MEFPT_parsePartitions = [] ∧
+    Gen.UefiParse.sliceshapes_NewMERegion = [] ∧ Gen.UefiParse.cmpops_NewMERegion = [">"] ∧
+    Gen.UefiParse.sliceshapes_FindMEDescriptor = [] ∧ Gen.UefiParse.cmpops_FindMEDescriptor = [">= 0"] ∧
+    Gen.UefiParse.callcount_NewMERegion_NewMEFPT = 1 ∧ Gen.UefiParse.callcount_NewMEFPT_FindMEDescriptor = 1 ∧
+    Gen.UefiParse.callcount_NewMEFPT_parsePartitions = 1 := by decide
+
+/-! ### follow-up wp-c04b: NVAR store (the model is C10's; here: how the UEFI parser reaches it) -/
+
+/-- `NewFile` parses the store once, from `f.buf[f.DataOffset:]`; the walk hands `newNVar` the window
+    `s.buf[FreeSpaceOffset:GUIDStoreOffset]` and runs while `FreeSpaceOffset < GUIDStoreOffset`; `newNVar`
+    clips the entry to `buf[:Size]` and looks for a nested store in `v.buf[v.DataOffset:]`, once -/
+theorem tie_shape_nvar :
+    Gen.UefiParse.callcount_NewFile_NewNVarStore = 1 ∧
+    Gen.UefiParse.sliceshapes_NewNVarStore = ["[l:h]"] ∧ Gen.UefiParse.cmpops_NewNVarStore = ["<"] ∧
+    Gen.UefiParse.callcount_NewNVarStore_newNVar = 1 ∧
+    Gen.UefiParse.sliceshapes_newNVar = ["[:h]", "[l:]"] ∧ Gen.UefiParse.cmpops_newNVar = [] ∧
+    Gen.UefiParse.callcount_newNVar_parseContent = 1 ∧ Gen.UefiParse.callcount_NVar_parseContent_NewNVarStore = 1 := by decide
+
+/-! ### follow-up wp-c04b: writes to byte slices inside the parser -/
+
+/-- a write record is harmless when it goes into a buffer the function allocated itself -/
+def writeIsFresh (w : String) : Bool := w == "copy field fresh none" || w == "copy field fresh notro"
+
+/-- **every write to a byte slice inside the closure of `uefi.Parse` is a `copy` into a freshly allocated
+    buffer**: no indexed assignment, no `append` onto an existing slice, no `PutUintNN`, no `Erase`, no
+    read-into, nothing written through a parameter or an aliasing field -/
+theorem tie_writes_all_fresh : Gen.UefiWrites.bytewrites_closure_Parse.all writeIsFresh = true := by decide
+
+/-- the inventory itself: twelve copies; the four under `else` of `if ReadOnly` are the copy-mode
+    buffers of the four constructors that alias in read-only mode -/
+theorem tie_writes_closure :
+    Gen.UefiWrites.bytewrites_closure_Parse =
+      List.replicate 8 "copy field fresh none" ++ List.replicate 4 "copy field fresh notro" := by decide
+
+/-- the constructors that switch on `ReadOnly` (BIOS region, volume, file, section): exactly one write
+    each, the copy into the buffer made in the else-branch of `if ReadOnly` -/
+theorem tie_writes_switching_constructors :
+    Gen.UefiWrites.bytewrites_NewBIOSRegion = ["copy field fresh notro"] ∧
+    Gen.UefiWrites.bytewrites_NewFirmwareVolume = ["copy field fresh notro"] ∧
+    Gen.UefiWrites.bytewrites_NewFile = ["copy field fresh notro"] ∧
+    Gen.UefiWrites.bytewrites_NewSection = ["copy field fresh notro"] := by decide
+
+/-- the constructors that always copy (flash image + descriptor, ME region and table, raw region, NVAR
+    store, NVAR entry, the hash of an extended header): unguarded copies into fresh buffers, nothing
+    else; padding nodes, the descriptor parser and the GUID-table reader write nothing -/
+theorem tie_writes_copying_constructors :
+    Gen.UefiWrites.bytewrites_NewFlashImage = ["copy field fresh none", "copy field fresh none"] ∧
+    Gen.UefiWrites.bytewrites_NewMERegion = ["copy field fresh none"] ∧
+    Gen.UefiWrites.bytewrites_NewMEFPT = ["copy field fresh none"] ∧
+    Gen.UefiWrites.bytewrites_NewRawRegion = ["copy field fresh none"] ∧
+    Gen.UefiWrites.bytewrites_NewNVarStore = ["copy field fresh none"] ∧
+    Gen.UefiWrites.bytewrites_newNVar = ["copy field fresh none"] ∧
+    Gen.UefiWrites.bytewrites_NVar_parseExtendedHeader = ["copy field fresh none"] ∧
+    Gen.UefiWrites.bytewrites_NewBIOSPadding = [] ∧
+    Gen.UefiWrites.bytewrites_FlashDescriptor_ParseFlashDescriptor = [] ∧
+    Gen.UefiWrites.bytewrites_NVarStore_getGUIDFromStore = [] := by decide
 
 end Fiano.Uefi.TieC04
